@@ -93,7 +93,7 @@ def conc_stage(rep, work, vh, tier, seed, replay_sc=None):
     """A query while the recorder ends a run and begins the next: HistoryConc.tla checked exhaustively, its behaviours
     replayed through the gates of the real jsondb, every gate passage validated by HistoryConcTrace.tla."""
     q = tier == "quick"
-    states, transitions, runs = rc.model_check(work, "HistoryConc", ["MC_C06_conc_relist_n1.cfg", "MC_C06_conc_relist_n2.cfg", "MC_C06_conc_relist_find.cfg"], workers=2)
+    states, transitions, runs = rc.model_check(work, "HistoryConc", ["MC_C06_conc_relist_n1.cfg", "MC_C06_conc_relist_n2.cfg", "MC_C06_conc_relist_find.cfg", "MC_C06_conc_update.cfg"], workers=2)
     scs = []
     if replay_sc:
         scs = [replay_sc]
